@@ -233,9 +233,13 @@ const (
 	c19OpUnsubAll
 	c19OpPub
 	c19OpDrain
+	// an Unsubscribe whose hand-over to the server loop fails: the caller's context is already done and the
+	// loop is not taking commands (in a node: the loop is parked on a slow unbuffered subscriber, or the
+	// command queue is full). The call returns the context's error, so nothing was unsubscribed.
+	c19OpUnsubRefused
 )
 
-var c19OpNames = []string{"subscribe", "unsubscribe", "unsubscribeAll", "publish", "drain"}
+var c19OpNames = []string{"subscribe", "unsubscribe", "unsubscribeAll", "publish", "drain", "unsubscribeRefused"}
 
 type c19Cmd struct {
 	Op  int `json:"op"`
@@ -274,6 +278,8 @@ func (c c19Cmd) String() string {
 		return fmt.Sprintf("publish(%v)", c19Events[c.E])
 	case c19OpDrain:
 		return fmt.Sprintf("drain(c%d)", c.C)
+	case c19OpUnsubRefused:
+		return fmt.Sprintf("unsubscribe(c%d, %q) with a done context while the loop takes no command", c.C, c19Queries[c.Q].str)
 	}
 	return "?"
 }
@@ -462,7 +468,7 @@ func (s *c19Sim) apply(c c19Cmd) *c19Fail {
 func (s *c19Sim) apply1(c c19Cmd) *c19Fail {
 	ctx := context.Background()
 	s.errStep, s.errQuery = false, -1
-	if s.solo >= 0 && c.C != s.solo && (c.Op == c19OpSub || c.Op == c19OpUnsub || c.Op == c19OpUnsubAll || c.Op == c19OpDrain) {
+	if s.solo >= 0 && c.C != s.solo && (c.Op == c19OpSub || c.Op == c19OpUnsub || c.Op == c19OpUnsubAll || c.Op == c19OpDrain || c.Op == c19OpUnsubRefused) {
 		return nil
 	}
 	before := map[*c19Handle]int{}
@@ -512,6 +518,13 @@ func (s *c19Sim) apply1(c c19Cmd) *c19Fail {
 				}(sub.out, h.quit, h.ack)
 			}
 			if old := s.liveHandle(c.C, c.Q); old != nil { // cannot happen through the real API checks
+				// The reference still holds old as live (it was never unsubscribed with success and never
+				// overflowed). If the loop's state no longer holds it and it was not cancelled, no later
+				// publication can reach it (send walks state.subscriptions only) and it is never told.
+				if s.st.subscriptions[c19Queries[c.Q].str][c19Client(c.C)] != old.sub && !c19Closed(old.sub.Cancelled()) {
+					return &c19Fail{key: "libs/pubsub/pubsub.go:live-subscription-replaced-without-cancel", h: old,
+						what: fmt.Sprintf("%s is live (no successful unsubscribe, no overflow), yet %s was accepted and replaced it in the server loop's state without cancelling it: it receives no further matching publication and is never told", s.describe(old), c.String())}
+				}
 				old.live, old.ended = false, "replaced"
 			}
 			s.handles = append(s.handles, h)
@@ -542,6 +555,20 @@ func (s *c19Sim) apply1(c c19Cmd) *c19Fail {
 		} else {
 			s.stats.out("unsubscribe:not-found")
 		}
+	case c19OpUnsubRefused:
+		// unbuffered command channel without a receiver + a done context: of the three select cases in
+		// Unsubscribe only ctx.Done() is ready, so the outcome is deterministic; the loop is not run.
+		s.srv.cmds = make(chan cmd)
+		dctx, cancel := context.WithCancel(ctx)
+		cancel()
+		err := s.srv.Unsubscribe(dctx, c19Client(c.C), s.clientQuery(c.C, c.Q))
+		if err == nil {
+			return &c19Fail{key: "libs/pubsub/pubsub.go:unsubscribe:success-without-hand-over", h: s.liveHandle(c.C, c.Q),
+				what: fmt.Sprintf("%s returned nil although the command cannot have reached the server loop", c.String())}
+		}
+		// the caller was told that nothing was unsubscribed: every live subscription, the addressed one
+		// included, stays in `before` and must be untouched; the reference does not change.
+		s.stats.out("unsubscribe-refused:" + map[bool]string{true: "not-found", false: "context-error"}[err == ErrSubscriptionNotFound])
 	case c19OpUnsubAll:
 		s.arm()
 		err := s.srv.UnsubscribeAll(ctx, c19Client(c.C))
@@ -845,6 +872,7 @@ func (s *c19Sim) enabled(b c19Bounds) []c19Cmd {
 				}
 			} else {
 				out = append(out, c19Cmd{Op: c19OpUnsub, C: c, Q: q})
+				out = append(out, c19Cmd{Op: c19OpUnsubRefused, C: c, Q: q})
 			}
 		}
 		if m := s.srv.subscriptions[c19Client(c)]; len(m) > 1 || (len(m) == 1 && b.unsubAllSingle) {
@@ -1014,12 +1042,13 @@ func c19Text(cmds []c19Cmd) []string {
 func TestVerifC19Pubsub(t *testing.T) {
 	r := vr.Start("C19", "pubsub", 100*time.Second, 14*time.Minute)
 	defer r.Finish()
-	r.Rule = "breadth-first search over command sequences (subscribe/unsubscribe/unsubscribeAll/publish/drain x clients x query menu x capacity x event menu) " +
+	r.Rule = "breadth-first search over command sequences (subscribe/unsubscribe/unsubscribe refused at hand-over/unsubscribeAll/publish/drain x clients x query menu x capacity x event menu) " +
 		"executed through the real Server API and the real Server.loop on a harness-owned state; a state is the canonical encoding of the real " +
 		"state+Server maps modulo client renaming (buffer fill levels included); every (state, enabled command) pair is executed on a fresh real server " +
 		"by replaying the path; non-trivial = a publication reaches at least one live subscription; plus an amplified family (1 well-behaved subscriber, " +
 		"63 failing queries, 50 publications) for every (matching query, failing query family, misfitting event, reader mode)"
 	r.Assume("clients call the Server API sequentially; the server loop is a single goroutine, so command order is the whole schedule space")
+	r.Assume("a refused unsubscribe is modelled as the call made with a done context on a command channel nobody receives from (stands for: loop parked on a slow unbuffered reader, or queue full); it is enabled wherever unsubscribe is; the reference keeps the subscription live because the caller got the context's error")
 	r.Assume("an unbuffered subscription always has a reader (documented contract of SubscribeUnbuffered); buffered subscriptions read only at explicit drain commands")
 	r.Assume("for a subscriber whose OWN comparison does not fit a value's type, either delivering or not delivering that publication is accepted")
 
